@@ -215,6 +215,35 @@ fn rewrite_text(rng: &mut Rng, v: &Value, out: &mut String) {
 	}
 }
 
+/// a value in which keys repeat (outside I-JSON): the members sharing a key hold numbers in several spellings (some
+/// numerically equal, some whose lexical and numeric orders disagree), nested objects and arrays
+fn dup_value(rng: &mut Rng, depth: usize) -> Value {
+	let leaf = |rng: &mut Rng| -> Value {
+		match rng.below(4) {
+			0 => num(*rng.pick(&["4", "5", "0.5e1", "5.0", "50e-1", "10", "9", "1e1", "4.0", "-0", "0", "0.0", "100", "1E2"])),
+			1 => Value::String((*rng.pick(&["", "a", "b", "\u{e9}", "\u{e000}", "\u{1f600}"])).into()),
+			2 => Value::Null,
+			_ => Value::Boolean(rng.chance(1, 2)),
+		}
+	};
+	if depth == 0 {
+		return leaf(rng);
+	}
+	let keys = ["a", "b", "\u{e000}", "\u{1f600}", ""];
+	let n = 2 + rng.below(4);
+	let mut es: Vec<Entry> = vec![];
+	for _ in 0..n {
+		let k = if !es.is_empty() && rng.chance(1, 2) { es[rng.below(es.len())].key.to_string() } else { rng.pick(&keys).to_string() };
+		let v = match rng.below(5) {
+			0 => dup_value(rng, depth - 1),
+			1 => Value::Array((0..rng.below(3)).map(|_| dup_value(rng, depth - 1)).collect()),
+			_ => leaf(rng),
+		};
+		es.push(Entry::new(k.as_str().into(), v));
+	}
+	Value::Object(es.into_iter().collect())
+}
+
 pub fn record(args: &Args) {
 	let n = args.num("n", 150);
 	let heavy = args.get("heavy").is_some();
@@ -262,6 +291,30 @@ pub fn record(args: &Args) {
 				Err(e) => tool_error(&format!("rewriting does not parse: {e}: {tb}")),
 			}
 		}
+	}
+	// the laws of C10 do not depend on the value being I-JSON: with repeated keys canonicalization must still be idempotent
+	// and blind to member order, spacing, escaping and number spelling (no canonical text is prescribed for such values,
+	// only the relations between outputs are checked)
+	for i in 0..n / 3 + 8 {
+		let v = dup_value(&mut rng, 1 + i % 2);
+		let mut tb = String::new();
+		rewrite_text(&mut rng, &v, &mut tb);
+		let r = guarded(|| {
+			let mut a = v.clone();
+			a.canonicalize();
+			let ta = a.compact_print().to_string();
+			a.canonicalize();
+			let again = a.compact_print().to_string();
+			let qfail = queries_after(&mut a);
+			let (mut b, _) = Value::parse_str(&tb).unwrap_or_else(|e| tool_error(&format!("rewriting does not parse: {e}: {tb}")));
+			let pb = project(&b);
+			b.canonicalize();
+			(ta, again, pb, b.compact_print().to_string(), qfail.is_none())
+		});
+		lines.push(match r {
+			Ok((ta, again, pb, tb2, qok)) => json!({"ev": "dup", "a": project(&v), "b": pb, "ta": str_to_cps(&ta), "tb": str_to_cps(&tb2), "again": str_to_cps(&again), "queries_ok": qok, "panic": false, "btext": tb}),
+			Err(p) => json!({"ev": "dup", "a": project(&v), "b": project(&v), "ta": [], "tb": [], "again": [], "queries_ok": false, "panic": true, "msg": p, "btext": tb}),
+		});
 	}
 	use std::io::Write;
 	let mut f = std::fs::File::create(out).unwrap_or_else(|e| tool_error(&format!("create {out}: {e}")));
